@@ -526,3 +526,36 @@ Section Ring.
     left. cbn. repeat split; reflexivity.
   Qed.
 End Ring.
+
+(* ---- what the contract excludes: more than two live segments ----
+   lz4.h: "The last 64KB of previously decoded data *must* remain available and unmodified at the
+   memory position where they were decoded."  That is necessary, NOT sufficient: the decoder remembers
+   two segments.  Three blocks decoded into three separate buffers, nothing overwritten; the third,
+   strictly valid w.r.t. the 40 bytes decoded before it, references the first: the call fails (-5, as the
+   real decoder does), while the same three blocks decoded contiguously succeed. *)
+Definition seg3_b1 : list Z := [240; 5] ++ map (fun i => 100 + Z.of_nat i) (List.seq 0%nat 20%nat).
+Definition seg3_b2 : list Z := [240; 5] ++ map (fun i => 200 + Z.of_nat i) (List.seq 0%nat 20%nat).
+Definition seg3_b3 : list Z := [20; 77; 30; 0; 192; 1; 2; 3; 4; 5; 6; 7; 8; 9; 10; 11; 12].
+Definition seg3_d1 : list Z := map (fun i => 100 + Z.of_nat i) (List.seq 0%nat 20%nat).
+Definition seg3_d2 : list Z := map (fun i => 200 + Z.of_nat i) (List.seq 0%nat 20%nat).
+Definition seg3_d3 : list Z := [77; 111; 112; 113; 114; 115; 116; 117; 118; 1; 2; 3; 4; 5; 6; 7; 8; 9; 10; 11; 12].
+Definition seg3_calls (a1 a2 a3 : Z) : list scall :=
+  [(a1, 4096, seg3_b1, seg3_d1); (a2, 4096, seg3_b2, seg3_d2); (a3, 4096, seg3_b3, seg3_d3)].
+
+Lemma bytes_of_ok (l : list Z) : forallb (fun b => (0 <=? b) && (b <? 256)) l = true -> bytes l.
+Proof.
+  induction l as [|b r IH]; intros H; [constructor|]. cbn [forallb] in H.
+  apply andb_prop in H. destruct H as [H1 H2]. constructor; [lia | apply IH; exact H2].
+Qed.
+
+Lemma three_segments_refuted :
+  session_valid [] (seg3_calls 1000 10000 20000)
+  /\ (forall fastloop, map fst (session_run fastloop empty (setStreamDecode 0 0) (seg3_calls 1000 10000 20000)) = [20; 20; -5])
+  /\ (forall fastloop, session_run fastloop empty (setStreamDecode 0 0) (seg3_calls 1000 1020 1040) = expected (seg3_calls 1000 1020 1040)).
+Proof.
+  split; [|split].
+  - cbn [session_valid seg3_calls]. repeat split; try (vm_compute; reflexivity);
+      (apply bytes_of_ok; vm_compute; reflexivity).
+  - intros [|]; vm_compute; reflexivity.
+  - intros [|]; vm_compute; reflexivity.
+Qed.
